@@ -151,6 +151,20 @@ func GetClosureInt(f interface{}, name string) int           { panic("zzverif: c
 func SetClosureFloat(f interface{}, name string, v float64) { panic("zzverif: closure state is engine-only") }
 func GetClosureFloat(f interface{}, name string) float64     { panic("zzverif: closure state is engine-only") }
 
+// Exact real arithmetic for oracles (engine, relaxed-real mode: no rounding is applied; natively: float64).
+func RAdd(a, b float64) float64 { return a + b }
+func RSub(a, b float64) float64 { return a - b }
+func RMul(a, b float64) float64 { return a * b }
+func RDiv(a, b float64) float64 { return a / b }
+func RAbs(a float64) float64 {
+	if a < 0 {
+		return -a
+	}
+	return a
+}
+func RLess(a, b float64) bool { return a < b }
+func RLeq(a, b float64) bool  { return a <= b }
+
 // Time builds a time.Time from a nanosecond instant (symbolically: the engine's time model).
 func Time(ns int64) time.Time { return time.Unix(0, ns) }
 
